@@ -374,3 +374,51 @@ def unguarded(F, body, sites, pred, edge_ok=None):
         seen = body.reachable(edge_ok=edge_ok)
         return [(s, body.path_to(seen, s)) for s in sites if s in seen]
     return cut_sites(body, sites, g, edge_ok)
+
+
+# ---------------------------------------------------------------------------------------------
+# origin pattern helpers
+# ---------------------------------------------------------------------------------------------
+
+def is_field(node, adt, name):
+    """node is a read of field `name` of `adt` (possibly followed by a downcast / tuple-field projection)"""
+    n = strip(node)
+    if n[0] == 'cast':
+        return is_field(n[1], adt, name)
+    if n[0] != 'field' and n[0] != 'proj':
+        return False
+    fs = [e for e in n[2] if e[0] == 'f' and e[2] not in ('{tuple}',)]
+    if not fs:
+        return False
+    # last *named struct* field on the path
+    named = [e for e in fs if e[2] == adt]
+    return bool(named) and named[-1][1] == name and all(e[2] in (adt, 'std::option::Option', '{tuple}') or e[1].isdigit()
+                                                         for e in fs[fs.index(named[-1]):])
+
+
+def is_call(node, *suffixes, nargs=None):
+    n = strip(node)
+    if n[0] != 'call':
+        return False
+    if nargs is not None and len(n[2]) != nargs:
+        return False
+    return any(n[1].endswith(s) for s in suffixes)
+
+
+def call_args(node):
+    return strip(node)[2]
+
+
+def alts(node):
+    """alternatives of a phi (or the node itself)"""
+    n = strip(node)
+    return list(n[1]) if n[0] == 'phi' else [n]
+
+
+def struct_local(body, ty_prefix):
+    c = [i for i, l in enumerate(body.locals) if l['ty'].startswith(ty_prefix) and not l['ty'].startswith('&')]
+    return c
+
+
+def field_place(local, adt, name):
+    return [local, [['f', 0, name, adt, '-']]]
